@@ -793,7 +793,9 @@ impl Driver {
         }
 
         if exact {
-            self.check_transition_exact(&op, &pre, &post, &truth_after, now, cand_freq.unwrap_or(0), &hash_of, &pre_sketch, &invalidate_if_targets);
+            // an iterator held across a clock advance: the maintenance that follows runs at the later reading
+            let t_eval = if matches!(op, Op::IterAdvance { .. }) { now_after } else { now };
+            self.check_transition_exact(&op, &pre, &post, &truth_after, t_eval, cand_freq.unwrap_or(0), &hash_of, &pre_sketch, &invalidate_if_targets);
         } else {
             self.check_transition_weak(&op, &pre, &post, &truth_after, now_after);
         }
